@@ -235,6 +235,22 @@ def build(run):
                          and len(N2.argument_slots()) == len(Nop.argument_slots()))
             if not same_data:
                 return violated(f"replace({mname}(f, ...)*f, {{f: g}}) changed the operator's data: {Nop!r} -> {N2!r}", replay={"operator": mname}, reproduced=True, backend="exec")
+        # mapped objects in the DUAL slot of an interpolation (a cofunction, a coargument) are replaced too, together with the expression operand
+        from ufl import Coargument, Cofunction
+        c1, c2 = Cofunction(V_.dual()), Cofunction(V_.dual())
+        vstar = Coargument(V_.dual(), 0)
+        for what, mkI, mapping, want_slots in (
+                ("Interpolate(f, c1), {c1: c2}", lambda: Interpolate(f, c1), {c1: c2}, lambda: (c2, f)),
+                ("Interpolate(f, c1), {c1: c2, f: g}", lambda: Interpolate(f, c1), {c1: c2, f: g}, lambda: (c2, g)),
+                ("Interpolate(f*g, v*), {v*: c1}", lambda: Interpolate(f * g, vstar), {vstar: c1}, lambda: (c1, f * g)),
+                ("Interpolate(f, c1)*g, {c1: c2, g: f}", lambda: Interpolate(f, c1), {c1: c2, g: f}, lambda: (c2, f))):
+            I_ = mkI()
+            got = replace(I_, mapping)
+            n += 1
+            slots = tuple(got.argument_slots()) if hasattr(got, "argument_slots") else None
+            if slots is None or len(slots) != 2 or not (slots[0] == want_slots()[0]) or not (slots[1] == want_slots()[1]):
+                return violated(f"replace({what}) has the slots {tuple(map(str, slots)) if slots else got}; expected {tuple(map(str, want_slots()))} (a mapped object in the dual slot must be replaced)",
+                                replay={"case": what, "got": str(got)[:400]}, reproduced=True, backend="exec")
         return proved("exec(relative to the terminal rule)", vcs=n, sample=f"{n} (operator kind, context, image) cases: an operator key is replaced exactly like a coefficient key, zero images included")
     run.add("replace/base-form-operators-as-keys-and-containers", base_form_operators, kind="values")
 
